@@ -36,6 +36,9 @@ type cfg struct {
 	MaxActive, Workers, Per      int
 	AhtSync, WBuf                int
 	Reopen                       bool
+	// Directed: the stale-suffix scenario (a window in which several transactions are pre-committed before the next sync,
+	// the first one with value bytes, the following ones without)
+	Directed bool
 }
 
 func pick(rng *rand.Rand, run int) cfg {
@@ -63,7 +66,11 @@ func pick(rng *rand.Rand, run int) cfg {
 }
 
 func (c cfg) opts() *store.Options {
-	o := store.DefaultOptions().WithSynced(true).WithSyncFrequency(time.Millisecond).
+	sf := time.Millisecond
+	if c.Directed {
+		sf = 40 * time.Millisecond
+	}
+	o := store.DefaultOptions().WithSynced(true).WithSyncFrequency(sf).
 		WithEmbeddedValues(c.Embedded).WithWriteTxHeaderVersion(c.HdrVersion).
 		WithMaxIOConcurrency(c.IOConc).WithFileSize(c.FileSize).WithMaxActiveTransactions(c.MaxActive).
 		WithMaxConcurrency(8).WithExternalCommitAllowance(c.Ext).WithMaxTxEntries(4).WithMaxKeyLen(16).WithMaxValueLen(128).
@@ -111,11 +118,18 @@ type workload struct {
 }
 
 func (w *workload) commitOne(ctx context.Context, rng *rand.Rand) {
+	w.commitShaped(ctx, rng, 0, -1)
+}
+
+// commitShaped: ne entries (0: random), every value of length vlen (-1: random)
+func (w *workload) commitShaped(ctx context.Context, rng *rand.Rand, ne int, vlen int) {
 	tx, err := w.st.NewWriteOnlyTx(ctx)
 	if err != nil {
 		return
 	}
-	ne := 1 + rng.Intn(2)
+	if ne == 0 {
+		ne = 1 + rng.Intn(2)
+	}
 	var es []kv
 	for e := 0; e < ne; e++ {
 		k := []byte(fmt.Sprintf("k%02d", rng.Intn(8)))
@@ -126,7 +140,11 @@ func (w *workload) commitOne(ctx context.Context, rng *rand.Rand) {
 		if dup {
 			continue
 		}
-		v := make([]byte, []int{0, 5, 40, 100}[rng.Intn(4)])
+		n := vlen
+		if n < 0 {
+			n = []int{0, 5, 40, 100}[rng.Intn(4)]
+		}
+		v := make([]byte, n)
 		rng.Read(v)
 		vh.Must(tx.Set(k, nil, v), "tx.Set")
 		es = append(es, kv{k, v})
@@ -184,6 +202,27 @@ func (w *workload) phase(seed int64, n int) {
 	awg.Wait()
 }
 
+// window: three transactions pre-committed in this order inside one sync period: one entry with value bytes, then two
+// without value bytes (their records can be complete in the transaction log while the first one's value is not durable)
+func (w *workload) window(seed int64) {
+	ctx, cancel := context.WithTimeout(context.Background(), 10*time.Second)
+	defer cancel()
+	var wg sync.WaitGroup
+	base := w.st.LastPrecommittedTxID()
+	for i, vlen := range []int{40, 0, 0} {
+		wg.Add(1)
+		go func(i, vlen int) {
+			defer wg.Done()
+			w.commitShaped(ctx, rand.New(rand.NewSource(seed+int64(i))), 1, vlen)
+		}(i, vlen)
+		deadline := time.Now().Add(2 * time.Second)
+		for w.st.LastPrecommittedTxID() < base+uint64(i)+1 && time.Now().Before(deadline) {
+			time.Sleep(50 * time.Microsecond)
+		}
+	}
+	wg.Wait()
+}
+
 func (w *workload) discardScenario(rng *rand.Rand) {
 	dctx, dcancel := context.WithCancel(context.Background())
 	var dwg sync.WaitGroup
@@ -215,22 +254,22 @@ func (w *workload) discardScenario(rng *rand.Rand) {
 // ---- recovery of one image
 
 type recovered struct {
-	K         int                    `json:"k"`
-	Mode      string                 `json:"mode"`
-	At        int                    `json:"at"`
-	OpenOk    bool                   `json:"openOk"`
-	C         uint64                 `json:"c"`
-	Alhs      []int                  `json:"alhs"`
-	ChainOk   bool                   `json:"chainOk"`
-	LinkOk    bool                   `json:"linkOk"`
-	ContentOk bool                   `json:"contentOk"`
+	K         int    `json:"k"`
+	Mode      string `json:"mode"`
+	At        int    `json:"at"`
+	OpenOk    bool   `json:"openOk"`
+	C         uint64 `json:"c"`
+	Alhs      []int  `json:"alhs"`
+	ChainOk   bool   `json:"chainOk"`
+	LinkOk    bool   `json:"linkOk"`
+	ContentOk bool   `json:"contentOk"`
 	// values of recovered txs that were not committed before the crash are readable
-	ExtraValuesOk bool `json:"extraValuesOk"`
-	ProofOk   bool                   `json:"proofOk"`
-	IndexOk   bool                   `json:"indexOk"`
-	CommitOk  bool                   `json:"commitOk"`
-	Detail    string                 `json:"detail,omitempty"`
-	Choice    map[string]interface{} `json:"choice,omitempty"`
+	ExtraValuesOk bool                   `json:"extraValuesOk"`
+	ProofOk       bool                   `json:"proofOk"`
+	IndexOk       bool                   `json:"indexOk"`
+	CommitOk      bool                   `json:"commitOk"`
+	Detail        string                 `json:"detail,omitempty"`
+	Choice        map[string]interface{} `json:"choice,omitempty"`
 }
 
 func (w *workload) recoverImage(dir string, acks []ack, committedAt uint64, rec *recovered) {
@@ -494,6 +533,10 @@ func (w *workload) secondLevel(d1root string, r1 *recovered, seed int64, res *vh
 	rng := rand.New(rand.NewSource(seed))
 	ctx, cancel := context.WithTimeout(context.Background(), 10*time.Second)
 	for i := 0; i < 3; i++ {
+		if i == 0 && w.c.Directed {
+			w2.commitShaped(ctx, rng, 1, 40) // same record size as the first transaction of a window
+			continue
+		}
 		w2.commitOne(ctx, rng)
 	}
 	cancel()
@@ -562,6 +605,10 @@ func runOne(dir string, seed int64, runIdx int, thorough bool, res *vh.Result, o
 	}
 	rng := rand.New(rand.NewSource(seed*1000003 + int64(runIdx)))
 	c := pick(rng, runIdx)
+	if directedRun {
+		c = cfg{HdrVersion: int(seed+int64(runIdx)) % 2, IOConc: 1, FileSize: 1 << 20, MaxActive: 8, Workers: 1, Per: 1, AhtSync: 1, WBuf: 128, Directed: true}
+		deep = 12
+	}
 	root := filepath.Join(dir, fmt.Sprintf("run%d", runIdx))
 	vh.Must(os.MkdirAll(root, 0755), "mkdir")
 	defer os.RemoveAll(root)
@@ -593,7 +640,12 @@ func runOne(dir string, seed int64, runIdx int, thorough bool, res *vh.Result, o
 		vh.Must(w.st.Close(), "close")
 		w.open(false)
 	}
-	w.phase(seed*17+int64(runIdx), 1+c.Per/2)
+	if c.Directed {
+		w.window(seed * 19)
+		w.window(seed * 23)
+	} else {
+		w.phase(seed*17+int64(runIdx), 1+c.Per/2)
+	}
 	// wait for the pipeline to drain so that the last acknowledged commits are in the trace
 	time.Sleep(5 * time.Millisecond)
 	storetrace.Uninstall()
@@ -605,7 +657,7 @@ func runOne(dir string, seed int64, runIdx int, thorough bool, res *vh.Result, o
 	res.Count("events", len(events))
 
 	// ---- crash images
-	modes := []storetrace.Mode{"kill", "power0", "power1", "powerR"}
+	modes := []storetrace.Mode{"kill", "power0", "power1", "powerR", "powerF"}
 	type job struct {
 		k    int
 		mode storetrace.Mode
@@ -643,7 +695,7 @@ func runOne(dir string, seed int64, runIdx int, thorough bool, res *vh.Result, o
 		if thorough {
 			ms = modes
 		} else {
-			ms = []storetrace.Mode{"kill", modes[1+k%3]}
+			ms = []storetrace.Mode{"kill", modes[1+k%4]}
 		}
 		// nothing to distinguish when no store file exists yet
 		if k > 0 {
@@ -684,7 +736,7 @@ func runOne(dir string, seed int64, runIdx int, thorough bool, res *vh.Result, o
 		// prefer crash points where recovery had a precommitted backlog to deal with
 		cand := []*recovered{}
 		for _, r := range recs {
-			if r.OpenOk && (r.Mode == "kill" || r.Mode == "powerR") {
+			if r.OpenOk && (r.Mode == "kill" || r.Mode == "powerR" || r.Mode == "powerF") {
 				cand = append(cand, r)
 			}
 		}
@@ -758,6 +810,8 @@ func runOne(dir string, seed int64, runIdx int, thorough bool, res *vh.Result, o
 	_ = errors.New
 }
 
+var directedRun bool
+
 func main() {
 	seed := flag.Int64("seed", 1, "seed")
 	runs := flag.Int("runs", 3, "number of workloads")
@@ -776,6 +830,8 @@ func main() {
 		if os.Getenv("VERIF_DEBUG") != "" {
 			fmt.Fprintf(os.Stderr, "run %d\n", i)
 		}
+		// the last workload is the directed one
+		directedRun = i == *runs-1
 		runOne(*dir, *seed, i, *thorough, res, out)
 	}
 	out.Close()
